@@ -314,9 +314,30 @@ def emplace {κ ν : Type} [DecidableEq κ] (m : List (κ × ν)) (p : κ × ν)
 
 def emplaceAll {κ ν : Type} [DecidableEq κ] (l : List (κ × ν)) : List (κ × ν) := l.foldl emplace []
 
+/-- lexicographic order on byte strings -/
+def bytesLt : Bytes → Bytes → Bool
+  | [], [] => false
+  | [], _ :: _ => true
+  | _ :: _, [] => false
+  | a :: as, b :: bs => if a < b then true else if b < a then false else bytesLt as bs
+
+/-- each element strictly below the next -/
+def chainLt : List Bytes → Bool
+  | a :: b :: r => bytesLt a b && chainLt (b :: r)
+  | _ => true
+
+/-- a cheap sufficient test for "all keys distinct": the sorted key encodings are strictly increasing -/
+def distinctKeys {κ ν : Type} (k : Codec κ) (es : List (κ × ν)) : Bool :=
+  chainLt ((es.map fun e => k.enc e.1).mergeSort fun a b => !bytesLt b a)
+
+/-- all `emplace` calls of one read.  Equal to `emplaceAll es` (`insertAll_eq`, Lemmas/Msgpack.lean);
+the test only avoids the quadratic walk when there is nothing to drop. -/
+def insertAll {κ ν : Type} [DecidableEq κ] (k : Codec κ) (es : List (κ × ν)) : List (κ × ν) :=
+  if distinctKeys k es then es else emplaceAll es
+
 def map {κ ν : Type} [DecidableEq κ] (k : Codec κ) (v : Codec ν) : Codec (List (κ × ν)) where
   enc l := mapHeader l.length ++ encList (pair k v) l
-  dec bs := (decMapHeader bs).bind fun n r => (decList (pair k v) n r).bind fun es r' => .ok (emplaceAll es) r'
+  dec bs := (decMapHeader bs).bind fun n r => (decList (pair k v) n r).bind fun es r' => .ok (insertAll k es) r'
   fits l := l.all (pair k v).fits
 
 /-! ### objects.h: ownership of the data pointer
